@@ -1,0 +1,176 @@
+//! Verification hooks (only compiled with `--cfg narsese_verif`).
+//!
+//! * A simulator-owned hasher seam for the unordered term container:
+//!   every `TermSetType` instance draws its hasher key from a thread-local
+//!   "key tape" exactly where std's `RandomState::new()` would draw its
+//!   per-instance random keys.
+//! * A reach probe reporting which parser slots were still filled when a
+//!   parser state is re-targeted at a new input.
+//!
+//! With the cfg flag off, nothing in this file exists.
+
+use std::cell::RefCell;
+use std::hash::{BuildHasher, Hasher};
+
+/// How the key tape hands out per-instance hasher keys
+#[derive(Debug, Clone, Copy, PartialEq, Eq)]
+pub enum TapeMode {
+    /// every instance gets the same key (a "deterministic hasher" configuration)
+    Shared,
+    /// every instance hashes everything to one constant (legal, degenerate)
+    Collide,
+    /// every instance gets its own pseudo-random key (models std's `RandomState`)
+    Fresh,
+    /// per instance one of the above, decided by the tape
+    Mixed,
+}
+
+#[derive(Debug, Clone, Copy)]
+struct Tape {
+    mode: TapeMode,
+    seed: u64,
+    /// number of keys handed out since installation
+    handed_out: u64,
+    /// running digest of every key handed out (for determinism self-tests)
+    digest: u64,
+}
+
+thread_local! {
+    static TAPE: RefCell<Tape> = const { RefCell::new(Tape {
+        mode: TapeMode::Shared,
+        seed: 0,
+        handed_out: 0,
+        digest: 0,
+    }) };
+    /// counts of `reset_to` calls per 5-bit mask of still-filled slots
+    static DIRTY: RefCell<[u64; 32]> = const { RefCell::new([0; 32]) };
+    /// mask seen by the most recent `reset_to`
+    static LAST_DIRTY: RefCell<Option<u8>> = const { RefCell::new(None) };
+}
+
+#[inline]
+fn splitmix(mut z: u64) -> u64 {
+    z = z.wrapping_add(0x9E37_79B9_7F4A_7C15);
+    z = (z ^ (z >> 30)).wrapping_mul(0xBF58_476D_1CE4_E5B9);
+    z = (z ^ (z >> 27)).wrapping_mul(0x94D0_49BB_1331_11EB);
+    z ^ (z >> 31)
+}
+
+/// Install a key tape on the current thread (resets its counters)
+pub fn install_tape(mode: TapeMode, seed: u64) {
+    TAPE.with(|t| {
+        *t.borrow_mut() = Tape {
+            mode,
+            seed,
+            handed_out: 0,
+            digest: 0,
+        }
+    });
+}
+
+/// (keys handed out, digest of them) since the tape was installed
+pub fn tape_stats() -> (u64, u64) {
+    TAPE.with(|t| {
+        let t = t.borrow();
+        (t.handed_out, t.digest)
+    })
+}
+
+/// Simulator-owned replacement of `RandomState`
+#[derive(Debug, Clone, Copy)]
+pub struct SimBuildHasher {
+    collide: bool,
+    key: u64,
+}
+
+impl SimBuildHasher {
+    /// A hasher with an explicit key (not drawn from the tape)
+    pub fn with_key(key: u64) -> Self {
+        Self {
+            collide: false,
+            key,
+        }
+    }
+    /// A hasher that maps everything to one value
+    pub fn colliding() -> Self {
+        Self {
+            collide: true,
+            key: 0,
+        }
+    }
+}
+
+impl Default for SimBuildHasher {
+    /// Draws the next key from the thread's tape,
+    /// just where `RandomState::new()` draws from its thread-local keys
+    fn default() -> Self {
+        TAPE.with(|t| {
+            let mut t = t.borrow_mut();
+            t.handed_out += 1;
+            let r = splitmix(t.seed ^ splitmix(t.handed_out));
+            let h = match t.mode {
+                TapeMode::Shared => Self::with_key(t.seed),
+                TapeMode::Collide => Self::colliding(),
+                TapeMode::Fresh => Self::with_key(r),
+                TapeMode::Mixed => match r & 3 {
+                    0 => Self::colliding(),
+                    1 => Self::with_key(t.seed),
+                    _ => Self::with_key(r >> 2),
+                },
+            };
+            t.digest = splitmix(t.digest ^ h.key ^ ((h.collide as u64) << 63));
+            h
+        })
+    }
+}
+
+impl BuildHasher for SimBuildHasher {
+    type Hasher = SimHasher;
+    fn build_hasher(&self) -> SimHasher {
+        SimHasher {
+            collide: self.collide,
+            state: 0xcbf2_9ce4_8422_2325 ^ self.key,
+        }
+    }
+}
+
+/// Keyed FNV-1a with a final avalanche
+#[derive(Debug, Clone, Copy)]
+pub struct SimHasher {
+    collide: bool,
+    state: u64,
+}
+
+impl Hasher for SimHasher {
+    #[inline]
+    fn write(&mut self, bytes: &[u8]) {
+        for b in bytes {
+            self.state = (self.state ^ (*b as u64)).wrapping_mul(0x0000_0100_0000_01B3);
+        }
+    }
+    #[inline]
+    fn finish(&self) -> u64 {
+        match self.collide {
+            true => 0x5555_5555_5555_5555,
+            false => splitmix(self.state),
+        }
+    }
+}
+
+/// Called by the enum parser state when it is re-targeted at a new input:
+/// bit 0 budget, bit 1 term, bit 2 punctuation, bit 3 stamp, bit 4 truth
+/// were still filled at that moment
+pub fn probe_dirty_reset(mask: u8) {
+    DIRTY.with(|d| d.borrow_mut()[(mask & 31) as usize] += 1);
+    LAST_DIRTY.with(|l| *l.borrow_mut() = Some(mask & 31));
+}
+
+/// Take (and clear) this thread's dirty-reset counters
+pub fn take_dirty_counts() -> [u64; 32] {
+    DIRTY.with(|d| std::mem::replace(&mut *d.borrow_mut(), [0; 32]))
+}
+
+/// Take (and clear) the mask reported by the most recent re-targeting on this thread
+pub fn take_last_dirty() -> Option<u8> {
+    LAST_DIRTY.with(|l| l.borrow_mut().take())
+}
